@@ -27,7 +27,10 @@ pub const PROP: Prop = Prop {
            cob::get; E = entries of the returned history; E is ancestor-closed and contains no surely-rejected change; \
            re-point the references at the tips of E only and evaluate again: object (PartialEq), tips and entry set must be \
            identical. Non-trivial: a directly rejected change with >= 2 actions whose first action is valid on its own, at a \
-           non-tip position. Distinct = hash of the case.",
+           non-tip position. The same clause runs over identity histories (C04's generators: proposal rounds and free \
+           histories with accepts whose document signature does not verify, duplicate verdicts, non-delegate authors; \
+           one action per change) comparing the whole Identity state (current, heads, revisions, verdicts, timeline); \
+           non-trivial there: a directly rejected change and at least one kept change besides the root. Distinct = hash of the case.",
     assumptions: &[
         "'surely rejected' is only claimed for structural reasons (bad signature, newline title, missing target id, undecodable action); \
          other rejections are taken from the observed history",
@@ -525,4 +528,7 @@ fn check(ctx: &Ctx, c: &Case) -> CaseResult {
 
 fn run(ctx: &Ctx) {
     ctx.run("histories", case_strategy(), ctx.cases(480, 30_000), |c: &Case| check(ctx, c));
+    // identity objects: same clause over the identity histories of C04's generators
+    ctx.run("identity-rounds", super::c04::rounds_cases(), ctx.cases(240, 15_000), |c| super::c04::check_clean_history(ctx, c));
+    ctx.run("identity-histories", super::c04::history_cases(10), ctx.cases(160, 10_000), |c| super::c04::check_clean_history(ctx, c));
 }
